@@ -315,7 +315,8 @@ structure Prog2 where
   deriving Inhabited
 
 def concreteNames : List String :=
-  ["mov", "add", "sub", "and", "or", "xor", "imul", "shl", "shr", "orr", "eor", "mul", "lsl", "lsr", "madd", "neg", "not", "mvn", "inc", "dec"]
+  ["mov", "add", "sub", "and", "or", "xor", "imul", "shl", "shr", "orr", "eor", "mul", "lsl", "lsr", "madd", "neg", "not", "mvn", "inc", "dec",
+   "sar", "asr", "rol", "ror", "udiv", "bic", "orn", "eon", "andn", "msub", "mneg"]
 
 /-- recipe of a register/immediate-only instruction whose operand 0 is the only register written (and fully written) -/
 def mkRecipe (name : String) (ops : List Opd) (nReads : Nat) : Option Recipe :=
@@ -545,6 +546,14 @@ def translate (c : Ctx) (post : Bool) (nodes : Array Node) (twinOf : Nat → Opt
         let shapeMove : Option (Nat × Nat × Nat) :=
           -- (dst, src, bytes) when the instruction is an exact copy between two locations
           match n.ops with
+          | [.reg an _ asz afl _ awm aem _ _, .reg bn brt bsz bfl .., .reg cn crt csz ..] =>
+            -- `vpord d, s, s` / `and xd, xs, xs` / `orr ..`: with both sources the same register the instruction is a copy d := s
+            if n.extra == "-" && n.rfl == 0 && n.wfl == 0 && sameRegKeep n.name && bn == cn && brt == crt && bsz == csz && asz == bsz
+               && afl &&& 3 == 2 && bfl &&& 3 == 1 && (byteMask asz &&& ((awm ||| aem) ^^^ (2 ^ 64 - 1))) == 0 then
+              match regLoc post an, regLoc post bn with
+              | some d, some s => some (d, s, asz)
+              | _, _ => none
+            else none
           | [a, b] =>
             if n.extra != "-" || n.rfl != 0 || n.wfl != 0 then none else
             let cap := moveCap n.name
@@ -592,6 +601,17 @@ def translate (c : Ctx) (post : Bool) (nodes : Array Node) (twinOf : Nat → Opt
               && afl &&& 3 == 2 && bfl &&& 3 == 1
               && (match virtLoc an, virtLoc bn with | some d, some s => c.vsz d == asz && c.vsz s == bsz | _, _ => false)
               && (byteMask asz &&& ((awm ||| aem) ^^^ (2 ^ 64 - 1))) == 0
+            | [.reg an art asz afl _ awm aem _ _, .reg bn brt bsz bfl .., .reg cn crt csz ..] =>
+              -- three-operand copy idiom: only when BOTH twins have the register/register/register shape with equal sources
+              let shape3 (nd : Node) : Bool := match nd.ops with
+                | [.reg .., .reg b2 bt2 bs2 .., .reg c2 ct2 cs2 ..] => b2 == c2 && bt2 == ct2 && bs2 == cs2
+                | _ => false
+              let other : Option Node := if post then some n else twinOf n.tag
+              sameRegKeep preNode.name && preNode.extra == "-" && preNode.rfl == 0 && preNode.wfl == 0 && bn == cn && brt == crt && bsz == csz
+              && art == brt && asz == bsz && afl &&& 3 == 2 && bfl &&& 3 == 1
+              && (match virtLoc an, virtLoc bn with | some d, some s => c.vsz d == asz && c.vsz s == bsz | _, _ => false)
+              && (byteMask asz &&& ((awm ||| aem) ^^^ (2 ^ 64 - 1))) == 0
+              && (match other with | some o => shape3 o | none => false)
             | _ => false
           if preFull then
             match shapeMove with
@@ -691,7 +711,7 @@ def succs (c : Ctx) (pre post : Prog2) (p q : Nat) (E : Rel) : Except String (Li
     else if (tQ != 0 && tP == tQ) || isRetPair then
       match iP, iQ with
       | .op _ _ wP cP _ _, .op _ _ wQ cQ _ _ => .ok ([(p + 1, q + 1, twinE E wQ cQ wP cP)], false)
-      | .move dP _ _, .move dQ _ _ => .ok ([(p + 1, q + 1, (dQ, dP) :: kill E [dQ] [dP])], false)
+      | .move dP sP _, .move dQ _ _ => .ok ([(p + 1, q + 1, twinMoveE E dQ dP sP)], false)
       | .jmp tp, .jmp tq => .ok ([(tp, tq, E)], false)
       | .jcc _ _ tp, .jcc _ _ tq => .ok ([(tp, tq, E), (p + 1, q + 1, E)], false)
       | .jtab _ _ tsP, .jtab _ _ tsQ => .ok ((tsP.zip tsQ).map (fun x => (x.1, x.2, E)), false)
@@ -824,6 +844,16 @@ def evalRecipe (r : Recipe) (ins : List Nat) : Nat :=
    | "shl" | "lsl" => bin (fun x y => x <<< (y % sh))
    | "shr" | "lsr" => bin (fun x y => x >>> (y % sh))
    | "madd" => b * c3 + d4
+   | "msub" => d4 + m * m - (b * c3) % m
+   | "mneg" => m * m - (b * c3) % m
+   | "sar" | "asr" => bin (fun x y => let k := y % sh; if x >>> (sh - 1) == 1 then ((x >>> k) ||| ((m - 1) ^^^ ((m - 1) >>> k))) else x >>> k)
+   | "rol" => bin (fun x y => let k := y % sh; ((x <<< k) ||| (x >>> (sh - k))) % m)
+   | "ror" => bin (fun x y => let k := y % sh; ((x >>> k) ||| (x <<< (sh - k))) % m)
+   | "udiv" => bin (fun x y => if y == 0 then 0 else x / y)
+   | "bic" => bin (fun x y => x &&& ((m - 1) ^^^ y))
+   | "orn" => bin (fun x y => x ||| ((m - 1) ^^^ y))
+   | "eon" => bin (fun x y => x ^^^ ((m - 1) ^^^ y))
+   | "andn" => ((m - 1) ^^^ b) &&& c3
    | "neg" => if n == 1 then m - a else m - b
    | "not" => m - 1 - a
    | "mvn" => m - 1 - b
@@ -904,7 +934,8 @@ def prepare (ts : List String) : Except String Prep :=
       if retLists.any (· != retLocS) then throw "unsupported: FuncRet nodes with different shapes"
       let retLocs ← retLocS.mapM fun s => match abiLoc c s with | some l => .ok l | none => .error s!"unsupported return location {s}"
       let twinOf (tag : Nat) : Option Node := preN.find? (fun n => n.tag == tag && n.kind != 'B')
-      let (pre, _) ← translate c false preN (fun _ => none) []
+      let postOf (tag : Nat) : Option Node := postN.find? (fun n => n.tag == tag && n.kind != 'B')
+      let (pre, _) ← translate c false preN postOf []
       let (post, spairs) ← translate c true postN twinOf retLocs
       -- user stack areas: one constant offset per area
       for (a, d0, d1) in spairs do
